@@ -571,9 +571,9 @@ static size_t get_value_size(carquet_physical_type_t type, int32_t type_length) 
  * alive until the caller issues the next call on this column reader.
  */
 
-static void retire_page_data(carquet_column_reader_t* reader) {
+static bool retire_page_data(carquet_column_reader_t* reader) {
     if (!reader->page_data_for_values) {
-        return;
+        return true;
     }
     if (reader->num_retired_pages >= reader->retired_pages_capacity) {
         int32_t new_cap = reader->retired_pages_capacity == 0
@@ -581,16 +581,16 @@ static void retire_page_data(carquet_column_reader_t* reader) {
         uint8_t** grown = realloc(reader->retired_page_data,
                                   (size_t)new_cap * sizeof(uint8_t*));
         if (!grown) {
-            /* Cannot keep it alive: fall back to releasing it now */
-            free(reader->page_data_for_values);
-            reader->page_data_for_values = NULL;
-            return;
+            /* Values already handed out point into it: it stays where it is
+             * and the caller gives up the new page instead */
+            return false;
         }
         reader->retired_page_data = grown;
         reader->retired_pages_capacity = new_cap;
     }
     reader->retired_page_data[reader->num_retired_pages++] = reader->page_data_for_values;
     reader->page_data_for_values = NULL;
+    return true;
 }
 
 void carquet_column_reader_release_retired_pages(carquet_column_reader_t* reader) {
@@ -1181,9 +1181,18 @@ static carquet_status_t load_next_page_mmap(
      * decompressed buffer since carquet_byte_array_t.data pointers
      * reference it. For uncompressed mmap, pointers go directly to mmap
      * which persists for the reader's lifetime, so no retention needed. */
-    if (decompressed && reader->type == CARQUET_PHYSICAL_BYTE_ARRAY &&
-        page_header.data_page_header.encoding == CARQUET_ENCODING_PLAIN) {
-        retire_page_data(reader);
+    bool retain = (decompressed && reader->type == CARQUET_PHYSICAL_BYTE_ARRAY &&
+                   page_header.data_page_header.encoding == CARQUET_ENCODING_PLAIN);
+
+    if (retain && !retire_page_data(reader)) {
+        retain = false;
+        if (status == CARQUET_OK) {
+            CARQUET_SET_ERROR(error, CARQUET_ERROR_OUT_OF_MEMORY, "Failed to retain page data");
+            status = CARQUET_ERROR_OUT_OF_MEMORY;
+        }
+    }
+
+    if (retain) {
         reader->page_data_for_values = decompressed;
     } else {
         free(decompressed);
@@ -1383,8 +1392,15 @@ static carquet_status_t load_next_page_fread(
     bool retain = (reader->type == CARQUET_PHYSICAL_BYTE_ARRAY &&
                    page_header.data_page_header.encoding == CARQUET_ENCODING_PLAIN);
 
+    if (retain && !retire_page_data(reader)) {
+        retain = false;
+        if (status == CARQUET_OK) {
+            CARQUET_SET_ERROR(error, CARQUET_ERROR_OUT_OF_MEMORY, "Failed to retain page data");
+            status = CARQUET_ERROR_OUT_OF_MEMORY;
+        }
+    }
+
     if (retain) {
-        retire_page_data(reader);
         reader->page_data_for_values = page_data;
         /* Free compressed buffer only if it's a separate allocation */
         if (compressed && compressed != page_data) {
